@@ -360,8 +360,9 @@ def _big_document(rng):
     """a well-formed document with 6-12 modules of every kind (up to 5 pairwise disjoint rectangles each) and 3-8 nets of 2-8 pins"""
     k = rng.randint(6, 12)
     mods = {}
+    odd = rng.sample(["inf", "nan", "Infinity", "NaN", "e5", "True", "none", "_"], 2) if rng.random() < 0.4 else []
     for i in range(k):
-        nm = f"M{i}"
+        nm = odd.pop() if (odd and i >= k - 2) else f"M{i}"       # valid identifiers that a careless parser takes for numbers / constants
         kind = rng.choice(["soft", "soft_regions", "soft_rects", "hard", "fixed", "terminal", "fterminal", "flip"])
         x0, y0 = 10.0 * i, rng.choice([0.0, 3.5, 12.25])
         nr = rng.randint(1, 5)
@@ -393,6 +394,9 @@ def _big_document(rng):
     for _ in range(rng.randint(3, 8)):
         pins = rng.sample(names, rng.randint(2, min(8, k)))
         nets.append(pins + ([rng.choice([2, 0.5, 7])] if rng.random() < 0.5 else []))
+    for nm in names[-2:]:
+        if not nm.startswith("M"):         # an oddly named module as the LAST pin of a net without weight
+            nets.append(rng.sample([x for x in names if x != nm], rng.randint(1, 2)) + [nm])
     return {"Modules": mods, "Nets": nets}
 
 
@@ -443,7 +447,8 @@ def _inject(rng, doc):
         m["rectangles"][rng.randrange(len(m["rectangles"]))][rng.choice([2, 3])] = rng.choice([0, -1])
     elif defect == "invalid_name":
         nm = rng.choice(names)
-        d["Modules"] = {("9 lives" if k == nm else k): v for k, v in d["Modules"].items()}
+        bad = rng.choice(["9 lives", "bus[3]", "x^2", "a\\b", "^", "`q", "a b", "a-b", "m.1", "", "é", "[", "]", "a]"])
+        d["Modules"] = {(bad if k == nm else k): v for k, v in d["Modules"].items()}
         d["Nets"] = [[x for x in net if x != nm] for net in d["Nets"]]
         d["Nets"] = [net for net in d["Nets"] if sum(isinstance(x, str) for x in net) >= 2]
     else:
